@@ -198,6 +198,29 @@ def work_attrs(names):
                                {'observed': o.as_json() if not o.ok else [o.value.to_string(), e1.to_string()]})
             if bad:
                 vio.append({'scope': name, 'kind': bad[0], 'key': bad[1], **bad[2]})
+        # constructor keywords given together, one of them None, and an undeclared / invalid one: same element and
+        # same errors as the corresponding dot assignments
+        good = [(an, v) for (an, v) in steps if v is not None and not isinstance(v, tuple) and an != 'bogus-attribute']
+        if len({an for an, v in good}) >= 2:
+            (a1, v1) = good[0]
+            (a2, v2) = next((an, v) for (an, v) in good if an != a1)
+            for label, kw in (('none-first', {a1: None, a2: v2}), ('none-last', {a2: v2, a1: None}),
+                              ('none-and-bogus', {a1: None, 'bogus_attribute': 1}),
+                              ('none-and-invalid', {a1: None, a2: ('invalid', 'value')})):
+                oc['attr_sequences'] += 1
+                kwp = {k.replace('-', '_'): v for k, v in kw.items()}
+                oc_ = call(lambda: cls(val, xsd_check=False, **kwp))
+                e2 = cls(val, xsd_check=False)
+                od = None
+                for k, v in kwp.items():
+                    od = call(setattr, e2, k, v)
+                    if not od.ok:
+                        break
+                same = (oc_.ok == od.ok) and (not oc_.ok or oc_.value.to_string() == e2.to_string())
+                if not same:
+                    vio.append({'scope': name, 'kind': 'surfaces-differ', 'key': [name, 'keywords-together', label],
+                                'observed': [oc_.as_json() if not oc_.ok else oc_.value.to_string(),
+                                             od.as_json() if not od.ok else e2.to_string()]})
     return vio, dict(oc)
 
 
